@@ -35,10 +35,11 @@ CHECKS["C07"] = {"text": "Proved on the model, for every configuration, option s
     "technique": "Coq proof: logs as maps over a ghost history, induction over the run + finite-sum algebra over Q; model/implementation correspondence on all cost logs and resource state logs"}
 CHECKS["C08"] = {"text": "Proved on the model: after a run with log initialisation every log of every object equals the map of its row function over the recorded rows of the "
     "run's trace (entry k = live value when step k was recorded, with the display rule), their common length is project.time; a run without log initialisation appends "
-    "its rows; the alignment (all logs of length project.time) holds after ANY sequence of simulate / initialize calls with any flags and options. The clauses about "
-    "backward_simulate and reverse_log_information are not yet part of the model: they are checked by the oracle on the implementation only (partial).",
-    "note": COMMON_NOTE + " PARTIAL: backward simulation and log reversal are searched (oracle on implementation traces), not proved.",
-    "technique": "Coq proof: logs as maps over a ghost history, induction over traces and over operation sequences; oracle + correspondence on operation sequences"}
+    "its rows; reverse_log_information turns every log into the map over the REVERSED history (alignment kept, live values untouched); the alignment (all logs of length project.time) holds after ANY sequence of "
+    "simulate / initialize / reverse_log_information calls with any flags and options, and after backward_simulate (Model/BackwardRun.v: inner run on the reversed configuration extended by the due-time helper tasks, "
+    "then the optional log reversal). The model is tied to the code by the full-state correspondence after every operation of random operation sequences over all five kinds of operation.",
+    "note": COMMON_NOTE,
+    "technique": "Coq proof: logs as maps over a ghost history, induction over traces and over operation sequences (simulate, initialize, reverse_log, backward); oracle + full-state correspondence on operation sequences through the extracted driver"}
 CHECKS["C02"] = {"text": "Proved on the model for every configuration, option set and run length: in the perform phase a WORKING task loses exactly the contribution of "
     "what is allocated to it (unit rate for automatic tasks; sum of worker skills; worker x paired facility skill; nothing from a resource without skill or in ABSENCE; "
     "at absence steps only automatic tasks and only with the flag), every other task and every other phase leaves remaining work unchanged except that __update sets it to 0 "
@@ -98,9 +99,10 @@ CHECKS["C20"] = {"text": "Proved on the model: configuring from a successfully s
     "they are removed), takes over its unit time, and the unit rate becomes parent unit / sub-project unit; configuring from any other project is refused with a warning and changes nothing; an automatic "
     "task that starts with remaining work d and unit rate r is WORKING for exactly ceil(d/r) working steps (0 for d = 0) for all d >= 0, r > 0 on a grid with no positive remainder below the finishing "
     "tolerance, and that grid condition holds for whole-step durations and unit ratios pu/su with su <= 1e10; in the simulation an automatic WORKING task loses exactly its rate per working step and is never "
-    "given workers or facilities. PARTIAL: the run-level statement (exactly N consecutive working steps of the parent log, starting when the ready gate first holds) is checked by the oracle on the "
-    "implementation (dyadic and non-dyadic unit pairs), not stated as a single theorem over runs.",
-    "note": COMMON_NOTE + " PARTIAL as stated. Configuration outcomes are compared with the model by generated cases files (vm_compute).",
+    "given workers or facilities; run level: in every run (auto-task-while-absent flag off) such a task -- automatic, not bound to a component, no FF/SF predecessors -- from the first loop state in which it is READY or "
+    "WORKING with remaining work x >= 1e-10 until it is FINISHED is logged WORKING at exactly steps_working x rate (= ceil(x/rate)) working steps: it starts at the first working step at which it is READY, performs at every "
+    "working step, waits at absence steps and is FINISHED at the update after the last one. The oracle checks the parent run on the implementation (dyadic and non-dyadic unit pairs).",
+    "note": COMMON_NOTE + " Configuration outcomes are compared with the model by generated cases files (vm_compute); sub-project tasks inside the parent run are modelled as automatic tasks.",
     "technique": "Coq proof (configuration arithmetic; least-n / ceiling characterisation with Qceiling; per-step progress) + oracle on parent runs + vm_compute correspondence of configure/set_rate"}
 CHECKS["C18"] = {"text": "Model/LogEdit.v mirrors remove_absence_time_list / insert_absence_time_list of the project and of every class below it. Proved for every configuration, every aligned "
     "project state and ANY list of step indices (step 0, repeated elements, already listed steps, steps beyond the end): both editors keep every log of every object at one common length and set project.time to it, "
@@ -114,10 +116,11 @@ CHECKS["C17"] = {"text": "Model/Backward.v mirrors the structural part of backwa
     "considering_due_time_of_tail_tasks and ANY order of removing the helpers (the code iterates over a set): task list, every input list, every output list of a real task and every workplace list are restored "
     "element for element in the same order, no helper stays listed; the result does not depend on whether the inner run returned or raised (C17_crash_irrelevant). A later forward simulate equals a fresh one "
     "(from C09's independence of the incoming state). In the logs of any run an FS successor is never logged WORKING at or before a step where its predecessor is logged WORKING (Inv of C01 on the ghost history of C08), "
-    "the reversed configuration has exactly the reversed edges, and reversing equal-length logs swaps the order. The structure model is tied to the code by vm_compute correspondence on the structure recorded before, "
+    "the reversed configuration has exactly the reversed edges, and reversing equal-length logs swaps the order; for the model of the whole call (Model/BackwardRun.v) the time-reversed logs show an FS predecessor WORKING only "
+    "strictly before its successor and every log has one entry per step. The structure model is tied to the code by vm_compute correspondence on the structure recorded before, "
     "inside (first observer call of the inner run) and after the call; object identity of the list objects, the exception paths and the later forward run are searched by the oracle with an exception injected at (step, phase).",
-    "note": COMMON_NOTE + " PARTIAL: the run-level statement 'logs of a successful backward run keep one entry per step' is C08's theorem for the inner run plus list reversal; reverse_log_information itself "
-    "(rev on every log) is searched, not modelled. Object identity of list objects is outside the model (searched).",
+    "note": COMMON_NOTE + " Object identity of the list objects and the exception paths are outside the model (searched by the oracle with injected exceptions); the whole call incl. reverse_log_information is modelled and compared with "
+    "the implementation on full dumps.",
     "technique": "Coq proof (exact-list invariant for helper insertion/removal in any order, involutive reversal; FS log order by C01 invariant over the C08 ghost history) + vm_compute correspondence of the structure before/inside/after + oracle with injected exceptions"}
 CHECKS["C16"] = {"text": "harness/schema.py translates the save format of the CURRENT source into coq/Gen/Schema.v on every run (fail-closed Python-ast translator): per class the keys written by "
     "export_dict_json_data / write_simple_json with the shape of each value expression, the constructor arguments read back in read_json_data / read_simple_json with the shape of each conversion, the attribute each "
